@@ -13,6 +13,7 @@ EXTRA = {  # other checks that also see the change (recorded, not required)
     "C01-1": ["C04"], "C02-1": ["C06"], "C02-2": ["C14"], "C04-1": ["C03"], "C05-2": ["C06"], "C11-1": ["C06"],
     "C13-1": ["C03"], "C16-2": ["C06"],
     "C01-3": ["C03"], "C02-4": ["C07"], "C06-3": ["C07"], "C06-4": ["C08"], "C04-3": ["C03"],
+    "C13-3": ["C03"], "C12-3": ["C10"], "C18-3": ["C13"],
 }
 
 
